@@ -409,7 +409,7 @@ def run_system(sysd, idx, rng, tier, out):
                 per.append({"label": l, "res": ref_traverse(succ, root, x, mode == "detect")})
             cases.append({"sys": idx, "mode": "frame-" + mode, "cols": cols, "real": real, "ref_cols": per})
         # sampled traversal
-        nrows = rng.choice([999, 1000, 1001, 1500])
+        nrows = rng.choice([120, 500, 999, 1000, 1001, 1500])
         for x in range(sysd["m"]):
             sx = rng.randrange(sysd["m"])
             k = rng.choice([1, 5, 10, nrows - 1, nrows, nrows + 1])
@@ -453,6 +453,13 @@ def c18_oracle(case):
         return None
     succ = case["succ"]
     if case["nrows"] < 1000 or case["k"] > case["nrows"]:
+        # small input: must equal the full traversal (reference semantics on the full datum)
+        ref = ref_traverse(succ, real["path"][0], case["x"], False)
+        if "err" in ref:
+            return None
+        if ref["path"] != real["path"] or ref["x"] != real["x"]:
+            return "series of %d rows with sample_size %d: sampled traversal %s / %s differs from full traversal %s / %s" % (
+                case["nrows"], case["k"], real["path"], real["x"], ref["path"], ref["x"])
         return None
     x = case["x"]
     state = {}
